@@ -426,6 +426,15 @@ class Evaluator:
                 return len(recv)
         if m in ("clone", "copied", "as_ref", "to_owned", "deref"):
             return recv
+        if isinstance(recv, str) and not e["args"]:
+            if m in ("trim", "trim_start", "trim_end"):
+                return {"trim": recv.strip(), "trim_start": recv.lstrip(), "trim_end": recv.rstrip()}[m]
+            if m == "len":
+                return len(recv.encode("utf8"))
+            if m == "is_empty":
+                return recv == ""
+            if m in ("as_str", "to_string"):
+                return recv
         if m == "abs" and isinstance(recv, int) and not isinstance(recv, bool):
             return SInt(abs(int(recv)))
         if isinstance(recv, StructVal) and not e["args"] and m in recv:
@@ -459,6 +468,8 @@ class Evaluator:
         return ("closure", e)
 
     def e_macro(self, e, env):
+        if ("macro:" + e["name"]) in self.hooks:
+            return self.hooks["macro:" + e["name"]](self, e, env)
         if e["name"] in ("unreachable", "todo", "unimplemented", "panic"):
             raise Panic(e["name"] + "!", e.get("l"))
         raise Unknown("macro %s!" % e["name"])
